@@ -2,6 +2,8 @@
 
 #include <algorithm>
 #include <cmath>
+#include <cstring>
+#include <map>
 #include <sstream>
 
 using namespace MEDDLY;
@@ -32,18 +34,20 @@ void World::failNow(const std::string &monitor, const std::string &family,
     fail.step = cur_step;
 }
 
-void World::note(int outcome, uint64_t h, long nodes, long nedges)
+void World::note(int outcome, uint64_t h, long nodes, long nedges, uint64_t shape)
 {
     Obs o;
     o.outcome = outcome;
     o.h = h;
     o.nodes = nodes;
     o.edges = nedges;
+    o.shape = shape;
     obs.push_back(o);
     eh.add(uint64_t(outcome));
     eh.add(h);
     eh.add(uint64_t(nodes));
     eh.add(uint64_t(nedges));
+    eh.add(shape);
     switch (outcome) {
         case OC_SKIP:       stats.skipped++; break;
         case OC_DECLINED:   stats.declined++; break;
@@ -381,6 +385,49 @@ EdgeSlot* World::newEdge(int client, int forest)
     s->id = freshEdgeId();
     edges.push_back(s);
     return s;
+}
+
+// Hash of the graph below an edge that does not depend on which handles the
+// nodes happen to have: level, size and, per child slot, the edge value and
+// the child's own hash (terminals by their encoded value).  Two forests that
+// hold the same canonical structure for a function give the same hash
+// whatever their storage, memory manager, deletion policy or cache history.
+static uint64_t evBits(const edge_value &ev)
+{
+    if (ev.isLong()) return uint64_t(long(ev));
+    if (ev.isInt()) return uint64_t(long(int(ev)));
+    if (ev.isFloat()) { float x = float(ev); uint32_t b; memcpy(&b, &x, 4); return b; }
+    if (ev.isDouble()) { double x = double(ev); uint64_t b; memcpy(&b, &x, 8); return b; }
+    return 0x9e37;
+}
+static uint64_t shapeRec(forest* f, node_handle p, std::map<node_handle, uint64_t> &memo)
+{
+    if (p <= 0) return mix64(0x7e41, uint64_t(long(p)));
+    auto it = memo.find(p);
+    if (it != memo.end()) return it->second;
+    unpacked_node* U = unpacked_node::newFromNode(f, p, FULL_ONLY);
+    uint64_t h = mix64(uint64_t(long(U->getLevel())) + 77, U->getSize());
+    const unsigned n = U->getSize();
+    std::vector<node_handle> kids(n);
+    std::vector<uint64_t> evs(n, 0);
+    for (unsigned i = 0; i < n; i++) {
+        kids[i] = U->down(i);
+        if (!f->isMultiTerminal()) evs[i] = evBits(U->edgeval(i));
+    }
+    unpacked_node::Recycle(U);
+    for (unsigned i = 0; i < n; i++) {
+        h = mix64(h, evs[i]);
+        h = mix64(h, shapeRec(f, kids[i], memo));
+    }
+    memo[p] = h;
+    return h;
+}
+uint64_t World::shapeHash(const ForRT &F, const dd_edge &e)
+{
+    std::map<node_handle, uint64_t> memo;
+    uint64_t h = shapeRec(F.f, e.getNode(), memo);
+    if (!F.f->isMultiTerminal()) h = mix64(h, evBits(e.getEdgeValue()));
+    return mix64(h, memo.size());
 }
 
 int World::freshEdgeId()
